@@ -13,6 +13,8 @@ Batch  == JsonDeserialize(IOEnv.TRACE_FILE)
 Events == Batch.events
 NEv    == Len(Events)
 
+\* tolerance of geometric laws (unit normals against integer facet geometry)
+TolGeom == FX!FxTol(36)
 \* tolerance of the law tier: 2^-40 times an integer bound of the magnitude  |v|^T |A| |u|  of the pairing
 TolSum == FX!FxTol(40)
 
@@ -152,6 +154,57 @@ LawClauses(e) ==
         ConsistentLaw |-> \A l \in DOMAIN e.laws :
             FX!FxNear(e.laws[l].lhs, e.laws[l].rhs, FX!FxMulSmall(TolSum, e.laws[l].mag[1] + 1))]
 
+\* asm(form, list of bases): the sum of the single assemblies, for every form type, and mutually consistent on the sums
+SumMatAt(As, r, c) == SumN(Len(As), LAMBDA a : MatAt(As[a], r, c))
+MatIsSum(A, As) == /\ \A a \in DOMAIN As : As[a].shape = A.shape
+                   /\ \A x \in MatPos(A) \cup UNION {MatPos(As[a]) : a \in DOMAIN As} : MatAt(A, x[1], x[2]) = SumMatAt(As, x[1], x[2])
+VecIsSum(b, bs) == /\ \A a \in DOMAIN bs : Len(bs[a]) = Len(b)
+                   /\ \A r \in DOMAIN b : b[r] = SumN(Len(bs), LAMBDA a : bs[a][r])
+ListClauses(e) ==
+  IF e.err # "" THEN [NoUnexpectedError |-> FALSE]
+  ELSE IF ~(/\ MatWF(e.A) /\ \A a \in DOMAIN e.Aparts : MatWF(e.Aparts[a]) /\ MatWF(e.wA)
+            /\ Len(e.Aparts) >= 1 /\ Len(e.bparts) >= 1 /\ Len(e.sparts) >= 1 /\ Len(e.qparts) >= 1)
+       THEN [WellFormed |-> FALSE]
+  ELSE [NoUnexpectedError |-> TRUE, WellFormed |-> TRUE, EntriesIntegral |-> e.exact = 1,
+        ListAssemblySums |->
+           /\ MatIsSum(e.A, e.Aparts) /\ VecIsSum(e.b, e.bparts)
+           /\ e.s = SumN(Len(e.sparts), LAMBDA a : e.sparts[a])
+           /\ e.q = SumN(Len(e.qparts), LAMBDA a : e.qparts[a])
+           /\ (e.hasp = 1 => e.p = SumN(Len(e.pparts), LAMBDA a : e.pparts[a]))
+           /\ (e.haswhole = 1 => SameMatrix(e.A, e.wA) /\ e.b = e.wb /\ e.s = e.ws),
+        ConsistentOnSums |->
+           /\ Len(e.v) = Len(e.b) /\ ConsistentLin(e.b, e.v, e.q)
+           /\ (e.hasp = 1 => e.A.shape = <<Len(e.v), Len(e.u)>> /\ ConsistentBil(e.A, e.u, e.v, e.p))]
+
+\* default normals w.n of a facet basis against the integer geometry of the facets and the basis of side 0.
+\* fac[k] = [t |-> tangent vectors (integers), out |-> (facet midpoint - centroid of the owner cell) (integers),
+\*           n[q][c], n0[q][c] |-> normals of this basis / of the side-0 basis on the same facets (Fx), nn[q] |-> |n|^2 (Fx)]
+FxDotInt(nv, iv) == FX!FxSumSeq([c \in DOMAIN nv |-> FX!FxMulSmall(nv[c], iv[c])])
+AbsSum(iv) == SumN(Len(iv), LAMBDA c : Abs(iv[c]))
+NormalClauses(e) ==
+  IF e.err # "" THEN [NoUnexpectedError |-> FALSE]
+  ELSE IF ~(\A k \in DOMAIN e.fac :
+              /\ Len(e.fac[k].out) = e.dim /\ \A j \in DOMAIN e.fac[k].t : Len(e.fac[k].t[j]) = e.dim
+              /\ \A c \in 1..e.dim : Abs(e.fac[k].out[c]) <= 16000 /\ \A j \in DOMAIN e.fac[k].t : Abs(e.fac[k].t[j][c]) <= 16000
+              /\ Len(e.fac[k].n0) = Len(e.fac[k].n) /\ Len(e.fac[k].nn) = Len(e.fac[k].n)
+              /\ \A q \in DOMAIN e.fac[k].n : /\ Len(e.fac[k].n[q]) = e.dim /\ Len(e.fac[k].n0[q]) = e.dim /\ FX!FxWF(e.fac[k].nn[q])
+                                                /\ \A c \in 1..e.dim : FX!FxWF(e.fac[k].n[q][c]) /\ FX!FxWF(e.fac[k].n0[q][c]))
+       THEN [WellFormed |-> FALSE]
+  ELSE LET agree(sg) == \A k \in DOMAIN e.fac : \A q \in DOMAIN e.fac[k].n : \A c \in 1..e.dim :
+                           FX!FxNear(e.fac[k].n[q][c], FX!FxMulSmall(e.fac[k].n0[q][c], sg), TolGeom)
+       IN [NoUnexpectedError |-> TRUE, WellFormed |-> TRUE,
+           NormalUnit |-> \A k \in DOMAIN e.fac : \A q \in DOMAIN e.fac[k].n : FX!FxNear(e.fac[k].nn[q], FX!FxInt(1), TolGeom),
+           \* the same vector field on both sides of the facets, up to one sign for the whole basis
+           SideNormalsAgree |-> agree(1) \/ agree(-1)]
+          @@ (IF e.planar = 1
+              THEN [NormalOrthogonal |-> \A k \in DOMAIN e.fac : \A q \in DOMAIN e.fac[k].n : \A j \in DOMAIN e.fac[k].t :
+                        FX!FxNear(FxDotInt(e.fac[k].n[q], e.fac[k].t[j]), FX!FxZero, FX!FxMulSmall(TolGeom, AbsSum(e.fac[k].t[j]) + 1)),
+                    \* points away from the cell that owns the facet (f2t[0])
+                    NormalOutward |-> \A k \in DOMAIN e.fac : \A q \in DOMAIN e.fac[k].n :
+                        LET d == FxDotInt(e.fac[k].n[q], e.fac[k].out) IN
+                        FX!FxIsNonNeg(d) /\ ~FX!FxNear(d, FX!FxZero, FX!FxMulSmall(TolGeom, AbsSum(e.fac[k].out) + 1))]
+              ELSE <<>>)
+
 Clauses(e) ==
   CASE e.a = "Bil"    -> BilClauses(e)
     [] e.a = "Lin"    -> LinClauses(e)
@@ -161,6 +214,8 @@ Clauses(e) ==
     [] e.a = "Facet"  -> FacetClauses(e)
     [] e.a = "Chk"    -> ChkClauses(e)
     [] e.a = "Law"    -> LawClauses(e)
+    [] e.a = "List"   -> ListClauses(e)
+    [] e.a = "Normal" -> NormalClauses(e)
 
 Bump(c, r) == [k \in DOMAIN c \cup DOMAIN r |->
                  (IF k \in DOMAIN c THEN c[k] ELSE 0) + (IF k \in DOMAIN r THEN 1 ELSE 0)]
